@@ -312,11 +312,13 @@ func main() {
 		defer f.Close()
 	}
 	w := bufio.NewWriterSize(f, 1<<20)
-	if isCase {
-		runParent(prop, cg, *seed, *tier, w)
-	} else {
+	if ok { // a property may have both kinds of generator: the in-process one runs first
 		o := &Out{w: w, prop: prop, seed: *seed}
 		g(NewRng(*seed), *tier, o)
+		w.Flush()
+	}
+	if isCase {
+		runParent(prop, cg, *seed, *tier, w)
 	}
 	w.Flush()
 }
